@@ -165,6 +165,12 @@ pub fn profile_for(id: &str, rng: &mut Rng) -> Profile {
             }
             p.w_vacuum = rng.range(4, 10) as u32;
             p.w_reopen = *rng.pick(&[0, 3]);
+            if rng.chance(40) {
+                // sessions may be open when VACUUM runs: it aborts them, their clients end them at once
+                // (only a statement in such a session is the trigger of open finding V1)
+                p.zombie_sessions = true;
+                p.max_sessions = rng.range(2, 3) as u32;
+            }
         }
         "C06" => {
             p.plan_probes = true;
@@ -205,6 +211,23 @@ pub fn profile_for(id: &str, rng: &mut Rng) -> Profile {
             p.w_reopen = *rng.pick(&[0, 4]);
             p.w_ddl = 8;
             p.plan_probes = rng.chance(30);
+            if rng.chance(40) {
+                // a client whose transaction VACUUM aborted sends COMMIT / ROLLBACK or vanishes
+                p.zombie_sessions = true;
+                p.w_vacuum = 8;
+                // the region in which VACUUM itself is clean on this tree (as for C13: D14, D29, D29b, D29c)
+                p.guards.push("vacuum_after_rolled_back_delete".into());
+                p.guards.push("ddl_after_vacuum".into());
+                p.guards.push("vacuum_with_more_than_one_table".into());
+                p.guards.push("vacuum_of_updated_rows".into());
+                p.max_tables = 1;
+                p.w_ddl = 0;
+                p.updates = false;
+                p.plan_probes = false;
+                p.constraints = false; // an index is a second relation (D29b)
+                p.max_sessions = rng.range(2, 3) as u32;
+                p.w_session = 60;
+            }
         }
         "C16" => {
             p.w_failing = 10;
